@@ -40,14 +40,17 @@ from . import packages as pk
 PID = 'C08'
 RULE = ('cases = (package of 2-6 models in per-file or cube format, 6-20 wavelengths in either order, 1 aperture '
         '(distance-independent) or 3-5 apertures (distance-dependent), 3-5 model-identifying parameter columns, '
-        'parameter table permuted and file names decoupled in the per-file format; 3-5 normalised filters inside the '
+        'parameter table permuted and file names decoupled in the per-file format, where every model may also have its own '
+        'wavelength grid (same end points; same length with different interior spacing, or different lengths); some '
+        'never-planted models may have exactly zero flux over one filter\'s whole band; 3-5 normalised filters inside the '
         'SED range, convolved in one call or (35%) in two calls with a fit + write_parameters in between, all in one '
         'process and model directory; distance range handed over in kpc, pc, Mpc, cm or lyr; extinction law; 1-2 sources planted from (m, A_V0 in range, scale s0 | grid distance d0) with flag '
         '1 (relative error 1e-3..0.5, bias-compensated) or flag 4); a case is non-trivial when the package is '
         'non-degenerate for the planted data (every other model has chi2 > 1e-3); distinct = distinct canonical hash '
         'of the generated inputs')
 REQUIRED_BRANCHES = ['per_file', 'cube', 'dist_independent', 'dist_dependent', 'table_permuted', 'flag1', 'flag4',
-                     'staged_convolution', 'staged_table_not_alphabetical', 'staged_first_stage_checked', 'distance_unit_kpc', 'distance_unit_other',
+                     'staged_convolution', 'staged_table_not_alphabetical', 'staged_first_stage_checked',
+                     'own_grids_same_length', 'own_grids_mixed_lengths', 'other_model_zero_flux', 'other_model_zero_flux_indep', 'distance_unit_kpc', 'distance_unit_other',
                      'dist_dependent_unit_not_kpc', 'av0_at_lower_bound', 'two_sources', 'wav_increasing', 'wav_decreasing', 'unused_band']
 ASSUMPTIONS = ['IEEE rounding is not modelled: chi2 <= 1e-6 n, |A_V - A_V0|, |scale - s0| <= 1e-6 + first-order '
                'propagation of the storage precision of the model fluxes + 1e-12 x condition number of the normal equations',
@@ -88,6 +91,21 @@ def gen_case(rng, directed=None):
         wav.add(nice(rng, lo_w, hi_w, 3))
     wav = sorted(wav)
     order = directed.get('order', rng.choice(['inc', 'dec']))
+    # per-file packages may give every model its own wavelength grid: same end points, and either the same number
+    # of points with different interior spacing or a different number of points
+    hetero = directed.get('hetero', 'none' if fmt != 'per_file' else rng.choice(['none', 'none', 'same_len', 'mixed']))
+    if fmt != 'per_file' or directed.get('degenerate'):
+        hetero = 'none'
+    wavs = [wav]
+    for i in range(1, nm):
+        if hetero == 'none':
+            wavs.append(wav)
+            continue
+        n_i = nw if (hetero == 'same_len' or (hetero == 'mixed' and i == 1)) else max(6, nw + rng.choice([-3, -2, -1, 1, 2, 3]))
+        g = {wav[0], wav[-1]}
+        while len(g) < n_i:
+            g.add(nice(rng, wav[0], wav[-1], 3))
+        wavs.append(sorted(g))
     # filters: central wavelengths well inside the range, tabulated on 3-7 points in either order
     nf = directed.get('nf', rng.randint(3, 5))
     filters = []
@@ -135,7 +153,7 @@ def gen_case(rng, directed=None):
         amp = nice(rng, 0.1, 100., 2)
         w0 = nice(rng, wav[0], wav[-1], 2)
         base = [amp * (w / w0) ** alpha * (1. + 3. * math.exp(-0.5 * math.log(w / w0) ** 2)) * 10 ** rng.uniform(-0.4, 0.4)
-                for w in wav]
+                for w in wavs[i]]
         per_ap = []
         for a in range(nap):
             frac = 1. if nap == 1 else (a + 1. + rng.uniform(0, 0.8)) / (nap + 0.8)
@@ -146,6 +164,7 @@ def gen_case(rng, directed=None):
         flux[1] = [[float('%.4g' % (v * 3.)) for v in row] for row in flux[0]]   # pure scaling of model 0
     if order == 'dec':
         wav = wav[::-1]
+        wavs = [g[::-1] for g in wavs]
         flux = [[row[::-1] for row in per_ap] for per_ap in flux]
     # parameter table
     ncol = rng.randint(3, 5)
@@ -205,9 +224,24 @@ def gen_case(rng, directed=None):
                             di=rng.randrange(n_grid), flags=flags, errs=errs))
     # staged history: convolve a first group of filters, fit + write_parameters, convolve the remaining filter(s)
     # into the same package, fit + write_parameters with all filters (one process, one model directory)
+    # some other (never planted) models have exactly zero flux over the whole band of one filter
+    zero = []
+    planted_models = {s['m'] for s in sources}
+    cand = [i for i in range(nm) if i not in planted_models]
+    if cand and not degenerate and directed.get('zero', rng.random() < 0.3):
+        for z in rng.sample(cand, rng.randint(1, min(2, len(cand)))):
+            f = filters[rng.randrange(nf)]
+            g = sorted(wavs[z])
+            inside = [w for w in g if min(f['wav']) <= w <= max(f['wav'])]
+            below = [w for w in g if w < min(f['wav'])][-2:]
+            above = [w for w in g if w > max(f['wav'])][:2]
+            dead = set(inside + below + above)        # every SED point whose frequency bin can overlap the filter
+            flux[z] = [[0. if w in dead else v for w, v in zip(wavs[z], row)] for row in flux[z]]
+            zero.append([z, f['name']])
     staged = directed.get('staged', rng.random() < 0.35)
     n_first = rng.randint(min(3, nf - 1), nf - 1) if staged else nf     # >= 3 bands in the first stage when possible
-    return dict(fmt=fmt, dep=dep, names=names, wav=wav, aps=aps, flux=flux, filters=filters, theta=theta,
+    return dict(fmt=fmt, dep=dep, names=names, wav=wav, wavs=(wavs if hetero != 'none' else None), zero=zero,
+                aps=aps, flux=flux, filters=filters, theta=theta,
                 drange=drange_u, dunit=dunit, n_first=n_first, step=step, cols=cols, table_order=table_order, stems=stems,
                 tab_w=tw, tab_chi=chi, av=[av_lo, av_hi], sources=sources,
                 n_data_min=rng.randint(1, 3))
@@ -228,9 +262,18 @@ DIRECTED = [
     dict(fmt='per_file', dep=True, flags='mixed', nsrc=1, staged=False, dunit='cm'),
     dict(fmt='cube', dep=True, flags='flag1', nsrc=1, staged=True, dunit='lyr', nf=5),
     dict(fmt='per_file', dep=False, flags='mixed', nsrc=2, staged=True, dunit='pc', nf=5),
+    dict(fmt='per_file', dep=False, flags='flag4', nsrc=2, staged=False, hetero='same_len', zero=False),
+    dict(fmt='per_file', dep=True, flags='flag1', nsrc=2, staged=False, hetero='mixed', zero=False),
+    dict(fmt='per_file', dep=False, flags='mixed', nsrc=1, staged=True, hetero='same_len', zero=True, nf=4),
+    dict(fmt='per_file', dep=False, flags='flag1', nsrc=1, staged=False, hetero='none', zero=True),
+    dict(fmt='cube', dep=False, flags='flag4', nsrc=1, staged=False, zero=True),
+    dict(fmt='cube', dep=True, flags='mixed', nsrc=1, staged=False, zero=True),
 ]
 for _d in DIRECTED[:8]:
     _d.setdefault('staged', False)
+for _d in DIRECTED[:14]:
+    _d.setdefault('hetero', 'none')
+    _d.setdefault('zero', False)
 
 
 def gen_cases(seed, tier):
@@ -243,15 +286,25 @@ def gen_cases(seed, tier):
 
 def build_package(case, d):
     names = case['names']
-    flux = np.array(case['flux'], dtype=float)
     params_by_name = {n: [case['cols'][c][i] for c in case['cols']] for i, n in enumerate(names)}
-    if case['fmt'] == 'per_file':
+    if case['fmt'] == 'per_file' and case.get('wavs'):
+        order = [names[i] for i in case['table_order']]
+        cols = {c: [case['cols'][c][i] for i in case['table_order']] for c in case['cols']}
+        for i, n in enumerate(names):                # every model on its own wavelength grid
+            fi = np.array(case['flux'][i], dtype=float)[np.newaxis]
+            pk.write_sed_package(d, [n], case['wavs'][i], fi, fi * 0.1, apertures_au=case['aps'], table_order=[n],
+                                 params={c: [case['cols'][c][i]] for c in case['cols']},
+                                 aperture_dependent=case['dep'], logd_step=case['step'], file_names=case['stems'])
+        pk.write_parameters(d, order, cols)
+    elif case['fmt'] == 'per_file':
+        flux = np.array(case['flux'], dtype=float)
         order = [names[i] for i in case['table_order']]
         cols = {c: [case['cols'][c][i] for i in case['table_order']] for c in case['cols']}
         pk.write_sed_package(d, names, case['wav'], flux, flux * 0.1, apertures_au=case['aps'], table_order=order,
                              params=cols, aperture_dependent=case['dep'], logd_step=case['step'],
                              file_names=case['stems'])
     else:
+        flux = np.array(case['flux'], dtype=float)
         cols = {c: list(case['cols'][c]) for c in case['cols']}
         pk.write_cube_package(d, names, case['wav'], flux, flux * 0.1, apertures_au=case['aps'], params=cols,
                               aperture_dependent=case['dep'], logd_step=case['step'])
@@ -259,17 +312,23 @@ def build_package(case, d):
 
 
 def own_convolved(case, filt_objs):
-    """harness's own convolved fluxes: F[m][j][a] = sum_nu SED_m,a(nu) * rebinned response_j(nu)"""
+    """harness's own convolved fluxes: F[m][j][a] = sum_nu SED_m,a(nu) * rebinned response_j(nu), every model on
+    its own spectral grid"""
     from astropy import units as u
-    wav = np.array(case['wav'], dtype=float)
-    nu = (wav * u.micron).to(u.Hz, equivalencies=u.spectral())
-    order = np.argsort(nu.value)
-    nu_sorted = nu[order]
-    flux = np.array(case['flux'], dtype=float)[:, :, order]
-    out = np.zeros((flux.shape[0], len(filt_objs), flux.shape[1]))
-    for j, f in enumerate(filt_objs):
-        resp = f.rebin(nu_sorted).response
-        out[:, j, :] = np.sum(flux * resp[np.newaxis, np.newaxis, :], axis=2)
+    nm = len(case['names'])
+    nap = len(case['flux'][0])
+    out = np.zeros((nm, len(filt_objs), nap))
+    cache = {}
+    for i in range(nm):
+        wav_i = tuple((case.get('wavs') or [case['wav']] * nm)[i])
+        if wav_i not in cache:
+            nu = (np.array(wav_i, dtype=float) * u.micron).to(u.Hz, equivalencies=u.spectral())
+            order = np.argsort(nu.value)
+            cache[wav_i] = (order, [f.rebin(nu[order]).response for f in filt_objs])
+        order, resps = cache[wav_i]
+        flux = np.array(case['flux'][i], dtype=float)[:, order]
+        for j, resp in enumerate(resps):
+            out[i, j, :] = np.sum(flux * resp[np.newaxis, :], axis=1)
     return out
 
 
@@ -413,7 +472,8 @@ def budgets(case, src, run, si):
     w = 1. / sig ** 2
     k = ks[fitted]
     if case['fmt'] == 'cube':
-        lmax = float(np.max(np.abs(np.log10(run['own']))))
+        pos = run['own'][run['own'] > 0]
+        lmax = float(np.max(np.abs(np.log10(pos))))
         delta = 2. * 2. ** -24 * (1. / LN10 + 3. * lmax)
     else:
         delta = 1e-12
@@ -445,15 +505,18 @@ def model_exact(case, src, run, si):
     p = run['planted'][si]
     for f, x, e in zip(src['flags'], p['flux'], p['err']):
         line += [str(f), rat(x), rat(e)]
-    line.append(str(len(case['names'])))
-    for i in range(len(case['names'])):
+    # a model with zero flux in some band has log flux -inf: the fitter gives it NaN / 1e30, it never competes, and the
+    # driver's lg is only defined for positive arguments -> not sent
+    live = [i for i in range(len(case['names'])) if all(run['own'][i, j, 0] > 0 for j in range(nf))]
+    line.append(str(len(live)))
+    for i in live:
         line.append(rats([run['own'][i, j, 0] for j in range(nf)]))
     t = common.driver().ask(' '.join(line))
     n = t.nat()
-    out = []
-    for _ in range(n):
+    out = [(float('nan'), float('nan'), float('inf'))] * len(case['names'])
+    for i in live[:n]:
         av = t.rat(); sc = t.rat(); c2 = t.rat(); t.rat(); t.rat(); t.rats()
-        out.append((float(av), float(sc), float(c2)))
+        out[i] = (float(av), float(sc), float(c2))
     return out
 
 
@@ -469,6 +532,11 @@ def own_profile(case, src, run, si):
     y = np.asarray(p['logf'])[fitted]
     lo, hi = case['av']
     nm = len(case['names'])
+    with np.errstate(all='ignore'):
+        return _own_profile(case, run, fitted, w, k, y, lo, hi, nm)
+
+
+def _own_profile(case, run, fitted, w, k, y, lo, hi, nm):
     if case['dep']:
         g = grid(case)
         out = np.zeros((nm, len(g)))
@@ -504,7 +572,8 @@ def identifiable(case, src, run, si):
     prof = own_profile(case, src, run, si)
     m = src['m']
     others = np.delete(prof, m, axis=0)
-    if others.size and not np.all(others > FLOOR):
+    # NaN / inf chi2 (a model with zero flux in a fitted band) is not a competitor
+    if others.size and not np.all((others > FLOOR) | ~np.isfinite(others)):
         return False
     if case['dep']:
         g = grid(case)
@@ -652,6 +721,16 @@ def run_case(case):
             branches.add('distance_unit_kpc' if kpc_unit else 'distance_unit_other')
             if case['dep'] and not kpc_unit:
                 branches.add('dist_dependent_unit_not_kpc')
+            if case.get('wavs'):
+                sizes = {len(g) for g in case['wavs']}
+                branches.add('own_grids_same_length' if len(sizes) == 1 else 'own_grids_mixed_lengths')
+                if any(len(a) == len(b) and a != b for a, b in zip(case['wavs'], case['wavs'][1:])):
+                    branches.add('own_grids_same_length')
+            final_own = run[-1][1]['own']
+            planted_m = {s['m'] for s in case['sources']}
+            if any(np.any(final_own[i] == 0.) for i in range(len(case['names'])) if i not in planted_m):
+                branches.add('other_model_zero_flux')
+                branches.add('other_model_zero_flux_' + ('dep' if case['dep'] else 'indep'))
             if len(run) > 1:
                 branches.add('staged_convolution')
                 table_names = [case['names'][i] for i in case['table_order']]
